@@ -628,12 +628,12 @@ pub fn run(opts: &Opts, out: &mut dyn Write) {
         let mut strays = vec![];
         let fin = |c: Condition, d: DeliveryCode| PDUPayload::Directive(Operations::Finished(Finished { condition: c, delivery_code: d, file_status: FileStatusCode::Retained, filestore_response: vec![], fault_location: None }));
         for _ in 0..(2 + rng.below(5)) {
-            let kind = rng.below(9);
-            let at = if kind >= 4 { rng.below(700) } else { rng.below(3000) };
+            let kind = rng.below(12);
+            let at = if kind >= 9 { rng.below(3000) } else if kind >= 4 { rng.below(700) } else { rng.below(3000) };
             let job = rng.below(njobs as u64) as usize;
             // colliding strays go where the transaction they collide with lives
             let to = match kind {
-                4..=6 => jobs[job].from,
+                4..=6 | 9..=11 => jobs[job].from,
                 7 | 8 => jobs[job].to,
                 _ => *rng.pick(&[1u16, 2]),
             };
@@ -652,7 +652,12 @@ pub fn run(opts: &Opts, out: &mut dyn Write) {
                 6 => (mk_pdu(Direction::ToSender, TransmissionMode::Acknowledged, foreign, 0, to, PDUPayload::Directive(Operations::Ack(PositiveAcknowledgePDU { directive: PDUDirective::EoF, directive_subtype_code: ACKSubDirective::Other, condition: Condition::NoError, transaction_status: TransactionStatus::Active }))), Some(job)),
                 // file data / a cancelling EOF of a foreign entity's transaction with a colliding sequence number
                 7 => (mk_pdu(Direction::ToReceiver, TransmissionMode::Acknowledged, foreign, 0, to, PDUPayload::FileData(FileDataPDU::Unsegmented(UnsegmentedFileData { offset: 0, file_data: vec![0xEE; 9] }))), Some(job)),
-                _ => (mk_pdu(Direction::ToReceiver, TransmissionMode::Acknowledged, foreign, 0, to, PDUPayload::Directive(Operations::EoF(EndOfFile { condition: Condition::CancelReceived, checksum: 0, file_size: 0, fault_location: Some(vid(foreign)) }))), Some(job)),
+                8 => (mk_pdu(Direction::ToReceiver, TransmissionMode::Acknowledged, foreign, 0, to, PDUPayload::Directive(Operations::EoF(EndOfFile { condition: Condition::CancelReceived, checksum: 0, file_size: 0, fault_location: Some(vid(foreign)) }))), Some(job)),
+                // a PDU of one of this daemon's own send transactions reflected back to it (source = the daemon itself),
+                // while the transaction runs, just after it ended, or long after
+                9 => (mk_pdu(Direction::ToReceiver, jobs[job].mode, to, 0, 3 - to, PDUPayload::FileData(FileDataPDU::Unsegmented(UnsegmentedFileData { offset: 0, file_data: vec![0xAB; 5] }))), Some(job)),
+                10 => (mk_pdu(Direction::ToReceiver, jobs[job].mode, to, 0, 3 - to, PDUPayload::Directive(Operations::EoF(EndOfFile { condition: Condition::NoError, checksum: 0, file_size: 0, fault_location: None }))), Some(job)),
+                _ => (mk_pdu(Direction::ToReceiver, jobs[job].mode, to, 0, 3 - to, PDUPayload::Directive(Operations::Ack(PositiveAcknowledgePDU { directive: PDUDirective::Finished, directive_subtype_code: ACKSubDirective::Finished, condition: Condition::NoError, transaction_status: TransactionStatus::Terminated }))), Some(job)),
             };
             strays.push((at, to, p, seq_of));
         }
